@@ -12,7 +12,7 @@ from __future__ import annotations
 import contextvars
 import itertools
 
-from symex.poly import pand, peq
+from symex.poly import pand, peq, pnot
 
 PROPERTY = "C18"
 BOUNDS = {
@@ -155,6 +155,40 @@ def body_proxy_iop(I, X, op="__iadd__"):
     return ok, {"is_proxy": isinstance(p, LocalProxy)}
 
 
+def body_proxy_unbound(I, X, custom_message=False, target="local"):
+    """a proxy reports 'unbound' (falsy, empty dir(), '<LocalProxy unbound>' repr, RuntimeError
+    on resolution) exactly in the contexts where nothing is bound -- whatever unbound_message
+    it was given -- and resolves to the context's own value elsewhere"""
+    from werkzeug.local import Local, LocalProxy, LocalStack
+
+    base = contextvars.copy_context()
+    loc = base.run(Local)
+    stk = base.run(LocalStack)
+    a, b = base.run(contextvars.copy_context), base.run(contextvars.copy_context)
+    v0 = X.int("v0", -1000, 1000)
+    X.assume(pnot(peq(v0, 0)))
+    kw = {"unbound_message": "nothing here"} if custom_message else {}
+    if target == "local":
+        a.run(lambda: I.setattr(loc, "x", v0))
+        p = LocalProxy(loc, "x", **kw)
+    else:
+        a.run(lambda: I.call(stk.push, (v0,)))
+        p = LocalProxy(stk, **kw)
+
+    def probe():
+        try:
+            cur = I.call(p._get_current_object, ())
+            bound = True
+        except RuntimeError:
+            cur, bound = None, False
+        return bound, cur, bool(p), repr(p) == "<LocalProxy unbound>", (dir(p) == []) if not bound else None
+
+    ba, ca, ta, ra, da = a.run(probe)
+    bb, cb, tb, rb, db = b.run(probe)
+    ok = pand(ba, peq(ca, v0), ta, not ra, (not bb), (not tb), rb, db is True)
+    return ok, {"a": [ba, ta, ra], "b": [bb, tb, rb, db]}
+
+
 def body_iter_snapshot(I, X, then="consume-in-sibling"):
     """iter(local) is bound to the context that called it: consuming the iterator in a sibling
     context, or after the namespace was released, yields the values it was created over"""
@@ -180,6 +214,10 @@ def body_iter_snapshot(I, X, then="consume-in-sibling"):
 
 def obligations(tier, seed):
     out = []
+    for custom in (False, True):
+        for target in ("local", "stack"):
+            out.append({"name": f"proxy_unbound[custom_message={custom},{target}]", "body": "body_proxy_unbound",
+                        "params": {"custom_message": custom, "target": target}, "opts": {"budget_s": 300, "ctx": {"bv_ints": True}}})
     for then in ("consume-in-sibling", "consume-after-release"):
         out.append({"name": f"iter_snapshot[{then}]", "body": "body_iter_snapshot", "params": {"then": then},
                     "opts": {"budget_s": 300, "ctx": {"bv_ints": True}}})
